@@ -54,12 +54,6 @@ RULE = ('exact domain, enumerated: every length 0..72 (thorough: 0..1100) for ce
         '(recorded through a macro hook) on random, loud, silent and injected extreme band signals (all -32768). A case is '
         'distinct by (operation, variant set, outcome class).')
 NOT_COVERED = [
-    'observation (no encoder state found that reaches it: 300 extreme-signal configurations, all live states): '
-    'silk_mm_srai_round_epi32(a, 4) of silk/x86/NSQ_del_dec_avx2.c:125,758 computes (a + 8) >> 4 with a wrapping add, the C kernel '
-    'silk_RSHIFT_ROUND(a, 4) = ((a >> 3) + 1) >> 1; they differ for a >= 2^31 - 8, and a = INT32_MAX is what the preceding '
-    'silk_mm_sub_sat_epi32 delivers when it saturates (compiled helper: -134217728, C macro: +134217728). Proposed patch: '
-    '_mm_srai_epi32(_mm_add_epi32(_mm_srai_epi32(a, bits - 1), _mm_set1_epi32(1)), 1). The lane tie compares the helper below '
-    'its wrap point only; the theorem states the precondition',
     'observation (dead code, not a violation): silk_noise_shape_quantizer_10_16_sse4_1 (silk/x86/NSQ_sse4_1.c:283-660, entered only for '
     'shapingLPCOrder=10 and predictLPCOrder=16) is not bit-exact with silk_NSQ_c — it feeds a stale local sDiff_shp_Q14 into the shaping '
     'filter — but silk_setup_complexity only selects orders 12,14,16,20,24, so no encoder input reaches it; the search probes it and '
@@ -67,9 +61,6 @@ NOT_COVERED = [
     'silk_NSQ_sse4_1, silk_NSQ_del_dec_sse4_1, silk_NSQ_del_dec_avx2, silk_VAD_GetSA_Q8_sse4_1, op_pvq_search_sse2 have no Lean model: '
     'C-vs-SIMD comparison is differential only (live encoder states at every arch level plus structured perturbations) and is '
     'counted as search, not proof',
-    'perturbed quantiser states in which the portable quantiser saturates (pulses at the +-31/30 limit or int16-clipped output) are '
-    'not compared: there silk_NSQ_del_dec_avx2 computes in 64 bits what the C code wraps in 32 bits (NSQ_del_dec_avx2.c:113, '
-    'acknowledged upstream); the number of skipped cases is in the evidence',
     'floating-point rounding-error bounds are not formalised; NaN/Inf/denormal inputs are not in the exact domain (the search uses '
     'finite floats of wide dynamic range with the a-priori reassociation bound)',
     'only the CPU levels the sandbox CPU supports are executed (here all five: the CPU has SSE4.1, AVX2 and FMA); fixed-point '
@@ -143,6 +134,9 @@ def ties(ctx):
     q, s = ctx.quick, str(ctx.seed)
     ks, kp = _k(ctx, 'san'), _k(ctx, 'plain')
     out = []
+    corpus = os.path.join(common.VERIF, 'corpus', 'C15', 'nsq_lines.txt')
+    if os.path.exists(corpus):
+        out.append(common.run_tie('kernels-corpus', ['sh', '-c', 'grep "^kernels" "%s" | "%s" stdin' % (corpus, _nsq(ctx, 'plain'))]))
     out.append(common.run_tie('kernels-float-exact', [ks, 'float', s, '1200' if q else '30000', '0' if q else '1']))
     out.append(common.run_tie('kernels-vqwmat', [ks, 'vq', s, '2000' if q else '40000', '0']))
     out.append(common.run_tie('kernels-vqwmat-fullrange', [kp, 'vq', s, '1000' if q else '20000', '1']))
